@@ -850,7 +850,10 @@ def matrix_inverse_pth_root(
   if matrix_size == 1:
     damped_matrix = matrix + ridge_epsilon
     resultant_mat_h = damped_matrix**alpha
-    error = jnp.array(0, jnp.float32)
+    # Report the actual residual, as the iterative branch does: a non-finite or
+    # non-positive input must not be reported as an exact root.
+    error = jnp.max(jnp.abs(resultant_mat_h**p * damped_matrix - 1.0)).astype(
+        jnp.float32)
     iters = 0
     error_ratio = 0.0
     total_retries = 0
